@@ -372,8 +372,12 @@ def run_check(prop, tier, seed, repo, stages, level, rule, assumptions,
             known_hit.setdefault(k, hit)
         else:
             new_by_key.setdefault(k, v)
+    # one line per listed finding (several violation keys may match one pattern line)
+    by_what = {}
     for k, what in sorted(known_hit.items()):
-        print("KNOWN-FINDING: property=%s %s" % (prop, what))
+        by_what.setdefault(what, []).append(k)
+    for what, ks in by_what.items():
+        print("KNOWN-FINDING: property=%s %s [matched %d key(s), e.g. %s]" % (prop, what, len(ks), ks[0]))
     rc = 0
     replay_dir = os.path.join(rundir, "replay")
     for k, v in sorted(new_by_key.items()):
